@@ -17,6 +17,7 @@ from __future__ import annotations
 import base64
 import dataclasses
 import re
+import threading
 import types
 from datetime import date, datetime
 from typing import Any, Callable, TypeVar, Union, get_args, get_origin, get_type_hints
@@ -104,6 +105,10 @@ def snake_to_camel(name: str) -> str:
 
 # Global converter instance with automatic name transformation
 converter = cattrs.Converter()
+
+# Instances currently being unstructured (per thread): a dataclass that is reached again while it is still being
+# unstructured closes a reference cycle and is cut there instead of recursing until the interpreter stack is exhausted.
+_unstructure_state = threading.local()
 
 
 def _make_dataclass_structure_fn(cls: type[T]) -> Any:
@@ -816,7 +821,15 @@ def _register_unstructure_hooks_recursively(cls: type[Any], visited: set[type[An
         # Use closure to capture cls value
         def make_hook(captured_cls: type[Any]) -> Any:
             def hook(obj: Any) -> Any:
-                return _make_dataclass_unstructure_fn(captured_cls)(obj)
+                in_progress = _unstructure_state.__dict__.setdefault("in_progress", set())
+                obj_id = id(obj)
+                if obj_id in in_progress:
+                    return None  # reference cycle: cut here (JSON-safe)
+                in_progress.add(obj_id)
+                try:
+                    return _make_dataclass_unstructure_fn(captured_cls)(obj)
+                finally:
+                    in_progress.discard(obj_id)
 
             return hook
 
